@@ -288,6 +288,11 @@ func (c *channelInstance) verifyAndDecrypt(m *MessageChunk, r []byte) ([]byte, e
 		b = append(b[:headerLength], p...)
 	}
 
+	// A chunk that is too short to hold its own signature cannot be authentic.
+	if len(b) < headerLength+c.algo.RemoteSignatureLength() {
+		return nil, ua.StatusBadSecurityChecksFailed
+	}
+
 	signature := b[len(b)-c.algo.RemoteSignatureLength():]
 	messageToVerify := b[:len(b)-c.algo.RemoteSignatureLength()]
 
@@ -304,6 +309,11 @@ func (c *channelInstance) verifyAndDecrypt(m *MessageChunk, r []byte) ([]byte, e
 			paddingLength += 1
 		}
 		paddingLength += 1
+	}
+
+	// The padding must fit between the header and the signature.
+	if headerLength+paddingLength > len(messageToVerify) {
+		return nil, ua.StatusBadSecurityChecksFailed
 	}
 
 	b = messageToVerify[headerLength : len(messageToVerify)-paddingLength]
